@@ -28,37 +28,47 @@ def check(ctx, rep, tier):
     cm = ctx.mod("ctparse.ctparse")
     pre = cm.func("_preprocess_string")
     pats = _module_patterns(cm)
-    subs = _sub_chain(pre)
-    if len(subs) != 2:
-        raise AnalysisError("anchor vanished: the two substitutions in _preprocess_string ({} found)".format(len(subs)))
-    (inner_name, inner_repl, inner_strip), (outer_name, outer_repl, outer_strip) = subs
     full = tier == "thorough"
-    cls1 = _class_of(pats, inner_name, cm)
-    cls2 = _class_of(pats, outer_name, cm)
-    _compare(rep, cm, "separator-class", inner_name, cls1,
-             lambda cp: unicodedata.category(chr(cp)) in SEP_CATS or cp in SEP_CHARS, full)
-    _compare(rep, cm, "dash-class", outer_name, cls2,
-             lambda cp: unicodedata.category(chr(cp)) == "Pd" or cp in DASH_EXTRA, full)
-    for label, repl, strip, nm, want in (("separator-class", inner_repl, inner_strip, inner_name, " "),
-                                         ("dash-class", outer_repl, outer_strip, outer_name, "-")):
-        rep.add(label, "{}::_preprocess_string::{} replacement".format(cm.rel, nm), cm.where(pre),
-                repl == want, "" if repl == want else "replacement is {!r} instead of {!r}".format(repl, want))
-        rep.add(label, "{}::_preprocess_string::strip after {}".format(cm.rel, nm), cm.where(pre), strip,
-                "" if strip else "no strip() after the substitution: leading/trailing separators survive")
-    if cls1 is not None and cls2 is not None:
-        facts = {
-            "' ' in separator class": cls1[0].contains(0x20),
-            "'-' not in separator class": not cls1[0].contains(0x2D),
-            "'-' in dash class": cls2[0].contains(0x2D),
-            "' ' not in dash class": not cls2[0].contains(0x20),
-            "separator class under +": cls1[1],
-            "dash class under +": cls2[1],
-            "dash class disjoint from separator class on the dash code points":
-                not any(cls1[0].contains(cp) for cp in DASH_EXTRA | {0x2D, 0x2212}),
-        }
-        for k, v in facts.items():
-            rep.add("idempotent", "{}::_preprocess_string::{}".format(cm.rel, k), cm.where(pre), bool(v),
-                    "" if v else "does not hold: normalising twice can differ from normalising once")
+    rets = [r for r in ast.walk(pre) if isinstance(r, ast.Return) and r.value is not None]
+    if not rets:
+        raise AnalysisError("anchor vanished: _preprocess_string returns nothing")
+    rep.count("normaliser_return_paths", len(rets), 1)
+    for ri, r in enumerate(rets):
+        subs = _sub_chain(r.value, pats)
+        tag = "" if len(rets) == 1 else " [return {}]".format(ri + 1)
+        domain = _path_domain(r, pre)
+        if len(subs) != 2:
+            rep.violated("separator-class", "{}::_preprocess_string::substitution chain{}".format(cm.rel, tag),
+                         cm.where(r), "a return path applies {} substitution(s) instead of the separator "
+                         "and the dash substitution".format(len(subs)))
+            continue
+        (n1, t1, v1_1, repl1, strip1), (n2, t2, v1_2, repl2, strip2) = subs
+        cls1 = _class_of(t1, v1_1)
+        cls2 = _class_of(t2, v1_2)
+        _compare(rep, cm, "separator-class", n1 + tag, cls1, r,
+                 lambda cp: unicodedata.category(chr(cp)) in SEP_CATS or cp in SEP_CHARS, full, domain)
+        _compare(rep, cm, "dash-class", n2 + tag, cls2, r,
+                 lambda cp: unicodedata.category(chr(cp)) == "Pd" or cp in DASH_EXTRA, full, domain)
+        for label, repl, strip, nm, want in (("separator-class", repl1, strip1, n1, " "),
+                                             ("dash-class", repl2, strip2, n2, "-")):
+            rep.add(label, "{}::_preprocess_string::{} replacement{}".format(cm.rel, nm, tag), cm.where(r),
+                    repl == want, "" if repl == want else "replacement is {!r} instead of {!r}".format(repl, want))
+            rep.add(label, "{}::_preprocess_string::strip after {}{}".format(cm.rel, nm, tag), cm.where(r), strip,
+                    "" if strip else "no strip() after the substitution: leading/trailing separators survive")
+        if cls1 is not None and cls2 is not None:
+            facts = {
+                "' ' in separator class": cls1[0].contains(0x20),
+                "'-' not in separator class": not cls1[0].contains(0x2D),
+                "'-' in dash class": cls2[0].contains(0x2D),
+                "' ' not in dash class": not cls2[0].contains(0x20),
+                "separator class under +": cls1[1],
+                "dash class under +": cls2[1],
+                "dash class disjoint from separator class on the dash code points":
+                    not any(cls1[0].contains(cp) for cp in DASH_EXTRA | {0x2D, 0x2212}),
+            }
+            for k, v in facts.items():
+                rep.add("idempotent", "{}::_preprocess_string::{}{}".format(cm.rel, k, tag), cm.where(r), bool(v),
+                        "" if v else "does not hold: normalising twice can differ from normalising once")
     # normalised text reaches _ctparse
     gen = cm.func("ctparse_gen")
     ok = any(c.args and isinstance(c.args[0], ast.Call) and e1.callee_name(c.args[0].func) == "_preprocess_string"
@@ -83,12 +93,8 @@ def _module_patterns(cm):
     return out
 
 
-def _sub_chain(pre):
-    """[(pattern name, replacement, stripped?)] innermost first."""
-    ret = [r for r in ast.walk(pre) if isinstance(r, ast.Return)]
-    if not ret:
-        return []
-    e = ret[0].value
+def _sub_chain(e, pats):
+    """[(label, pattern text, version1?, replacement, stripped?)] innermost first."""
     out = []
 
     def unwrap(e):
@@ -103,19 +109,47 @@ def _sub_chain(pre):
                 return e, strip
     cur, strip = unwrap(e)
     while isinstance(cur, ast.Call) and isinstance(cur.func, ast.Attribute) and cur.func.attr == "sub" \
-            and isinstance(cur.func.value, ast.Name) and len(cur.args) >= 2:
-        repl = cur.args[0].value if isinstance(cur.args[0], ast.Constant) else None
-        out.append((cur.func.value.id, repl, strip))
-        cur, strip = unwrap(cur.args[1])
+            and isinstance(cur.func.value, ast.Name):
+        base = cur.func.value.id
+        if base in pats and len(cur.args) >= 2:
+            text, v1, _ = pats[base]
+            repl = cur.args[0].value if isinstance(cur.args[0], ast.Constant) else None
+            out.append((base, text, v1, repl, strip))
+            cur, strip = unwrap(cur.args[1])
+        elif base in ("re", "regex") and len(cur.args) >= 3 and isinstance(cur.args[0], ast.Constant):
+            repl = cur.args[1].value if isinstance(cur.args[1], ast.Constant) else None
+            out.append(("{}.sub({!r})".format(base, cur.args[0].value[:24]), cur.args[0].value, base == "regex",
+                        repl, strip))
+            cur, strip = unwrap(cur.args[2])
+        else:
+            break
     return list(reversed(out))
 
 
-def _class_of(pats, name, cm):
+def _path_domain(ret, f):
+    """Code points a return path can see: a path guarded by <text>.isascii() sees ASCII only."""
+    cur = getattr(ret, "_parent", None)
+    child = ret
+    while cur is not None and cur is not f:
+        if isinstance(cur, ast.If):
+            in_body = any(child is b for b in cur.body)
+            t = cur.test
+            pos = isinstance(t, ast.Call) and isinstance(t.func, ast.Attribute) and t.func.attr == "isascii"
+            neg = isinstance(t, ast.UnaryOp) and isinstance(t.op, ast.Not) and isinstance(t.operand, ast.Call) \
+                and isinstance(t.operand.func, ast.Attribute) and t.operand.func.attr == "isascii"
+            if (pos and in_body) or (neg and not in_body):
+                return "ascii"
+        child = cur
+        cur = getattr(cur, "_parent", None)
+    return "all"
+
+
+def _class_of(text, v1):
     """(CharSet, under_plus) of a pattern of the form CLASS+ or (alt of classes)+."""
-    if name not in pats:
+    try:
+        P = e2.parse(text, version1=v1)
+    except (AnalysisError, Undecided):
         return None
-    text, v1, st = pats[name]
-    P = e2.parse(text, version1=v1)
     root = P.root
     while root.kind in ("group", "atomic"):
         root = root.child
@@ -124,9 +158,9 @@ def _class_of(pats, name, cm):
     while body.kind in ("group", "atomic"):
         body = body.child
     if body.kind == "char":
-        return body.cs, plus, st
+        return body.cs, plus
     if body.kind == "alt" and all(_single_char(c) is not None for c in body.items):
-        return e2.CharSet("union", [_single_char(c) for c in body.items]), plus, st
+        return e2.CharSet("union", [_single_char(c) for c in body.items]), plus
     return None
 
 
@@ -136,14 +170,17 @@ def _single_char(n):
     return n.cs if n.kind == "char" else None
 
 
-def _compare(rep, cm, label, name, cls, spec, full):
+def _compare(rep, cm, label, name, cls, node, spec, full, domain="all"):
     c = "{}::{}::class".format(cm.rel, name)
     if cls is None:
-        rep.undecided(label, c, cm.rel, "pattern is not a repeated character class")
+        rep.undecided(label, c, cm.where(node), "pattern is not a repeated character class")
         return
-    cs, plus, st = cls
-    rng = list(range(0, 0x110000)) if full else list(range(0, 0x3100)) + list(range(0xD700, 0x10000)) + \
-        list(range(0x1F000, 0x1F100)) + [0xE0001, 0xE0020, 0xF0000, 0x10FFFF, 0x10000, 0x2FFFF]
+    cs, plus = cls
+    if domain == "ascii":
+        rng = list(range(0, 128))
+    else:
+        rng = list(range(0, 0x110000)) if full else list(range(0, 0x3100)) + list(range(0xD700, 0x10000)) + \
+            list(range(0x1F000, 0x1F100)) + [0xE0001, 0xE0020, 0xF0000, 0x10FFFF, 0x10000, 0x2FFFF]
     missing, extra = [], []
     n = 0
     for cp in rng:
@@ -162,14 +199,73 @@ def _compare(rep, cm, label, name, cls, spec, full):
             det += "not normalised: {} ".format(["U+%04X" % c_ for c_ in missing[:5]])
         if extra:
             det += "normalised although not in the stated classes: {}".format(["U+%04X" % c_ for c_ in extra[:5]])
-    rep.add(label, c, cm.where(st), ok, det,
+    rep.add(label, c, cm.where(node), ok, det,
             witness=None if ok else {"missing": missing[:10], "extra": extra[:10]})
-    rep.add(label, "{}::{}::applied to runs".format(cm.rel, name), cm.where(st), plus,
+    rep.add(label, "{}::{}::applied to runs".format(cm.rel, name), cm.where(node), plus,
             "" if plus else "the class is not under '+': a run of separators is not collapsed to one")
-    rep.count(label + "_code_points", n, 10000)
+    if domain != "ascii":
+        rep.count(label + "_code_points", n, 10000)
+
+
+def _raw_group_tests(ctx, rep):
+    """String tests the productions make on captured text must be on case-folded text:
+    the patterns match case-insensitively, so the capture can be in any case."""
+    from ..e3_rules import get_engine
+    eng = get_engine(ctx)
+    bad = {}
+    n = 0
+
+    def folded(sym):
+        return isinstance(sym, tuple) and sym and sym[0] in ("lower", "casefold", "upper")
+
+    def raw_group(sym):
+        if isinstance(sym, tuple) and sym:
+            if sym[0] == "group":
+                return True
+            if folded(sym):
+                return False
+            return any(raw_group(x) for x in sym[1:] if isinstance(x, tuple))
+        return False
+
+    def visit(sym, rule):
+        nonlocal n
+        if not isinstance(sym, tuple) or not sym:
+            return
+        if sym[0] == "anyof":
+            for conj in sym[1]:
+                for c, _ in conj:
+                    visit(c, rule)
+            return
+        if sym[0] in ("startswith", "endswith") and len(sym) >= 3:
+            n += 1
+            const = sym[2]
+            if raw_group(sym[1]) and isinstance(const, str) and const.lower() != const.upper():
+                bad.setdefault((rule.name, sym[0], const), rule)
+        if sym[0] == "cmp" and sym[1] in ("Eq", "NotEq"):
+            for a, b in ((sym[2], sym[3]), (sym[3], sym[2])):
+                if raw_group(a) and isinstance(b, tuple) and b[0] == "const" and isinstance(b[1], str) \
+                        and b[1].lower() != b[1].upper():
+                    n += 1
+                    bad.setdefault((rule.name, "==", b[1]), rule)
+        if sym[0] == "in" and isinstance(sym[1], tuple) and sym[1][0] == "const" and isinstance(sym[1][1], str):
+            if raw_group(sym[2]) and sym[1][1].lower() != sym[1][1].upper():
+                n += 1
+                bad.setdefault((rule.name, "in", sym[1][1]), rule)
+    for mk, run in eng.runs.items():
+        for p in run.paths:
+            for sym, _ in p.conds:
+                visit(sym, run.rule)
+    for (rname, op, const), rule in sorted(bad.items()):
+        rep.violated("case", rule_construct(rule, "{} {!r} on the captured text".format(op, const)), rule.where,
+                     "a production tests captured text case-sensitively ({} {!r}) although the pattern "
+                     "matched it case-insensitively".format(op, const))
+    if not bad:
+        rep.ok("case", "ctparse/time/rules.py::string tests on captures are case-folded", "ctparse/time/rules.py",
+               "{} string tests".format(n))
 
 
 def _case(ctx, rep):
+    _raw_group_tests(ctx, rep)
     n = 0
     for r in ctx.rb.rules:
         for i, p in enumerate(r.pats):
